@@ -327,6 +327,10 @@ func (h *SexpHash) TypeCheckField(key Sexp, val Sexp) error {
 				if len(a.Val) == 0 {
 					return nil // okay
 				}
+				// an array whose first element has no type ([nil 1]) has
+				// no slice type to compare with the declared one
+				return fmt.Errorf("field %v.%v is %v, cannot assign '%v'",
+					p.UserStructDefn.Name, k, declaredTyp.SexpString(nil), val.SexpString(nil))
 			case *SexpSentinel:
 				return nil // okay
 			default:
